@@ -1343,6 +1343,7 @@ fn resolve_types_and_aliases(
 
     let mut pass_count = 0usize;
     let max_passes = 100usize; // prevent infinite loops
+    let mut resolved_so_far = None;
 
     while pass_count < max_passes && !(types.is_resolved() && aliases.is_resolved()) {
         pass_count += 1;
@@ -1358,6 +1359,19 @@ fn resolve_types_and_aliases(
 
         types_report = types.analyze(Some(scope_rc.clone()));
         aliases_report = aliases.analyze(Some(scope_rc.clone()));
+
+        // every pass nests a copy of each definition inside the symbols that refer to it, so
+        // passes that resolve nothing new (an alias of a primitive or container type never
+        // counts as resolved) must not be repeated: with a type that mentions itself twice
+        // the definitions would double in size each time
+        let resolved = types.iter().filter(|x| x.is_resolved()).count()
+            + aliases.iter().filter(|x| x.is_resolved()).count();
+
+        if resolved_so_far == Some(resolved) {
+            break;
+        }
+
+        resolved_so_far = Some(resolved);
     }
 
     (types_report, aliases_report)
